@@ -87,10 +87,8 @@ def run(ctx, rep):
     bf = FnCtx(b)
     bp = [bb for bb, i, s in bf.aggregates("DdsError", "BadParameter")]
     okb = False
-    for sb, ce in bf.ces.items():
-        e0 = E.strip_casts(ce.expr)
-        if E.is_call(e0, "Iterator::any") and e0[2] and E.mentions_field(e0[2][0], "instances") and not E.mentions_field(e0[2][0], "sample_list"):
-            if ce.false_target is not None and bf.only_through(bp, [(sb, ce.false_target)]):
-                okb = True
+    from rules.common import not_member_pred
+    gm = bf.guards(not_member_pred("instances", "sample_list"))
+    okb = bool(gm) and bf.only_through(bp, gm)
     adder(rep, b)("R23c", "a known instance without matching samples yields NoData, never BadParameter", bool(bp) and okb,
                   "BadParameter is not decided on self.instances: the next-instance walk aborts at an instance whose samples were all taken")
